@@ -44,10 +44,37 @@ def run_program(chk, E, prog, gflags, name, with_test, with_run):
     return out, res
 
 
+class CorpusProg:
+    """a fixed program from /verif/corpus/programs (minimised past failures; run first)"""
+
+    def __init__(self, name):
+        self.name, self.ldflags, self.tests, self.features, self.mod = name, [], False, ["corpus:" + name], name
+        root = os.path.join(core.VERIF, "corpus", "programs", name)
+        self.files = {}
+        for d, _, fs in os.walk(root):
+            for f in fs:
+                p = os.path.join(d, f)
+                self.files[os.path.relpath(p, root)] = open(p).read()
+
+    def render(self):
+        return self.files
+
+
+def corpus_programs():
+    root = os.path.join(core.VERIF, "corpus", "programs")
+    return [CorpusProg(n) for n in sorted(os.listdir(root))] if os.path.isdir(root) else []
+
+
 def e2e_part(chk, tier):
     rnd = random.Random(chk.seed * 7919 + 1)
     E = e2e.E2E("c01")
     try:
+        for cp in corpus_programs():
+            fails, res = run_program(chk, E, cp, [], "corpus_" + cp.name, False, True)
+            chk.count_cases(["corpus|" + cp.name])
+            for f in fails:
+                chk.violation("%s [corpus program %s]" % (f["why"], cp.name), {"kind": "program", "files": cp.render(), **f}, True, key=f["why"] + ":corpus:" + cp.name)
+                break
         if tier == "quick":
             plan = [([], True, True), (["-literals", "-seed=o9WDTZ4CN4w"], False, False)]
         else:
